@@ -81,6 +81,22 @@ def run(ctx):
                 continue
             seen_q.add(key)
             ctx.report(key, "query built from %s rendered as %r parses back as %s (%s)" % (json.dumps(exp), ev["text"], json.dumps(got), ev["note"]), {"shape": exp})
+    # 4. literals of every type, with values that need all the precision of their type
+    if not ctx.replay:
+        lt = os.path.join(ctx.work, "literals.ndjson")
+        ctx.vh(["front", "literals", "--out", lt], timeout=600)
+        n3, rej3 = validate_histories(ctx, AREA, "CypherExprTrace", lt, chunk_events=20000, max_cand=40, parallel=2)
+        ctx.cov["traces_validated_against_impl"] += n3
+        ctx.cov["evaluations"] += n3 + len(rej3)
+        seen_l = set()
+        for hid, ev, events, pos in rej3:
+            what = "panic" if ev["panic"] else "emitted-text-does-not-parse" if not ev["reparse_ok"] else "type-changed" if ev["parsed_type"] != ev["expected_type"] else "value-changed"
+            key = "literal/%s/%s/%s" % (ev["path"], ev["literal"].split(":")[0], what)
+            if key in seen_l:
+                continue
+            seen_l.add(key)
+            ctx.report(key, "literal %s rendered (%s) as %r reads back as %s, same value=%s (%s)" % (ev["literal"], ev["path"], ev["text"], ev["parsed_type"], ev["same_value"], ev["note"]),
+                       {"literal": ev["literal"], "path": ev["path"]})
     nt = sum(1 for t in terms if t["b"] != "atom" and any(x.get("b") in ("and", "or", "xor", "not") for x in (t.get("xs") or [t.get("x") or {}])))
     ctx.cov["distinct_nontrivial"] = nt
     ctx.cov["samples"] += [json.loads(x) for x in open(trace).read().splitlines()[700:702]]
